@@ -277,6 +277,7 @@ func checkC01(c *Ctx) {
 	checkC01JoinConds(c)
 	checkC01ExprCopy(c)
 	checkC01ArgsUsed(c)
+	checkMergeUnconditional(c, c.Rule("C01.merge-unconditional", "merging a list-carrying clause keeps the earlier expressions (and their bound values) whatever the new clause carries", 4))
 	ro := c.Rule("C01.once", "ONCE(loop over a value slice, AddVar); empty-slice arms write NULL or bind nil", 8)
 	for _, f := range p.FuncsOf(pkgClause, pkgGorm) {
 		root := rootFunc(f)
